@@ -245,11 +245,20 @@ def toNum : V → Option Int
 def ofPV : PV → V
   | .undef => .undef | .null => .null | .bool b => .bool b | .num n => .num n | .str s => .str s
 
-/-- index of a canonical array-index property name -/
+def digitsVal : List Char → Nat → Option Nat
+  | [], acc => some acc
+  | c :: r, acc => if '0' ≤ c ∧ c ≤ '9' then digitsVal r (acc * 10 + (c.toNat - '0'.toNat)) else none
+
+/-- index of a canonical array-index property name (§15.4: ToString(ToUint32(P)) = P and ≠ 2^32−1): decimal
+    digits without a leading zero; structural on the characters, so that it also evaluates in the kernel -/
 def idx? (p : String) : Option Nat :=
-  match p.toNat? with
-  | some n => if toString n = p then some n else none
-  | none => none
+  match p.toList with
+  | [] => none
+  | ['0'] => some 0
+  | '0' :: _ => none
+  | cs => match digitsVal cs 0 with
+    | some n => if n < 4294967295 then some n else none
+    | none => none
 
 /-- [[Get]] (§8.12.3, §10.6 for mapped arguments) -/
 def getProp (σ : St) (base : V) (p : String) : Res V :=
@@ -290,6 +299,18 @@ def canPut (σ : St) : Nat → Nat → String → Bool
         | some q => canPut σ n q p
         | none => true
 
+/-- §10.6 [[DefineOwnProperty]] step 5.b.i of an arguments object, as reached from [[Put]]: a mapped index
+    also writes the parameter it is joined to -/
+def mappedAssign (σ : St) (k : OKind) (p : String) (v : V) : St :=
+  match k with
+  | .args map env =>
+    (match idx? p with
+     | some i => match map[i]? with
+       | some (some name) => envAssign σ (σ.envs.length + 1) env name v
+       | _ => σ
+     | none => σ)
+  | _ => σ
+
 /-- [[Put]] (§8.12.5; data properties only; a put that [[CanPut]] refuses is ignored: non-strict code) -/
 def putProp (σ : St) (base : V) (p : String) (v : V) : Res Unit :=
   match base with
@@ -300,20 +321,27 @@ def putProp (σ : St) (base : V) (p : String) (v : V) : Res Unit :=
     | none => .ok () σ
     | some o =>
       if !canPut σ (σ.heap.length + 1) a p then .ok () σ else
-      let σ1 : St :=
-        match o.kind with
-        | .args map env =>
-          (match idx? p with
-           | some i => match map[i]? with
-             | some (some name) => envAssign σ (σ.envs.length + 1) env name v
-             | _ => σ
-           | none => σ)
-        | _ => σ
+      let σ1 : St := mappedAssign σ o.kind p v
       let o' : Obj := match lookupA p o.props with
         | some _ => { o with props := updateA p v o.props }
         | none => { o with props := o.props ++ [(p, v)] }
       .ok () (σ1.setObj a o')
   | _ => .ok () σ
+
+/-- [[Configurable]] false: a function's length and prototype (§13.2), a bound function's length -/
+def fixedProp (k : OKind) (p : String) : Bool :=
+  match k with
+  | .func .. => p == "length" || p == "prototype"
+  | .bound .. => p == "length"
+  | _ => false
+
+/-- §10.6 [[Delete]] step 3: deleting an index of an arguments object un-maps it -/
+def unmapKind (k : OKind) (p : String) : OKind :=
+  match k with
+  | .args map env => (match idx? p with
+    | some i => .args (setNth map i none) env
+    | none => k)
+  | k => k
 
 /-- [[Delete]] (§8.12.7, §10.6) -/
 def delProp (σ : St) (base : V) (p : String) : Res V :=
@@ -324,18 +352,9 @@ def delProp (σ : St) (base : V) (p : String) : Res V :=
     match σ.obj? a with
     | none => .ok (.bool true) σ
     | some o =>
-      -- [[Configurable]] false: a function's length and prototype (§13.2), a bound function's length
-      let fixed : Bool := match o.kind with
-        | .func .. => p == "length" || p == "prototype"
-        | .bound .. => p == "length"
-        | _ => false
-      if fixed && (lookupA p o.props).isSome then .ok (.bool false) σ else
-      let kind' : OKind := match o.kind with
-        | .args map env => (match idx? p with
-          | some i => .args (setNth map i none) env
-          | none => o.kind)
-        | k => k
-      .ok (.bool true) (σ.setObj a { o with props := removeA p o.props, kind := kind', dontEnum := o.dontEnum.filter (· != p) })
+      if fixedProp o.kind p && (lookupA p o.props).isSome then .ok (.bool false) σ else
+      .ok (.bool true) (σ.setObj a { o with props := removeA p o.props, kind := unmapKind o.kind p,
+                                            dontEnum := o.dontEnum.filter (· != p) })
   | _ => .ok (.bool true) σ
 
 /-- [[HasProperty]] (§8.12.6): own or inherited -/
